@@ -19,7 +19,7 @@ open Rtp Rtp.Model Rtp.Pred.C20
     `ExtensionProfile` included), with the nil-ness of CSRC / Payload / Extensions / element
     payloads preserved — for every packet description. -/
 theorem c20_equal (x : Input) : equal x (modelObs x) = true := by
-  simp [equal, modelObs, pktClone, hdrClone]
+  simp [equal, modelObs, pktCloneD, hdrCloneD, pktClone, hdrClone]
 
 /-- in the model nothing is shared (a constant of the model, see the header comment) -/
 theorem c20_disjoint (x : Input) : disjoint (modelObs x) = true := by
@@ -27,7 +27,7 @@ theorem c20_disjoint (x : Input) : disjoint (modelObs x) = true := by
 
 /-- the side that is not mutated reports the original fields and serialises as before -/
 theorem c20_independent (x : Input) : independent x (modelObs x) = true := by
-  cases h : x.onClone <;> simp [independent, modelObs, pktClone, hdrClone, h]
+  cases h : x.onClone <;> simp [independent, modelObs, pktCloneD, hdrCloneD, pktMarshalD, pktClone, hdrClone, h]
 
 /-- the main theorem, in the shape of the run-time check -/
 theorem c20_clone (x : Input) : pred x (modelObs x) = true := by
@@ -63,6 +63,45 @@ example : pktMarshal (applyMut (.delExt 1) ex) ≠ pktMarshal ex := by decide
 example : (scenario ex (.delExt 1) false).1 ≠ (scenario ex (.delExt 1) false).2 := by decide
 example : (modelObs { p := ex, po := 12, nils := { csrc := false, payload := false, exts := false, extPl := [false, false] },
                       mutn := .delExt 1, onClone := true }).otherMarshal = pktMarshal ex := rfl
+
+/-! ### the deprecated fields `Packet.Raw` / `Header.PayloadOffset` set by hand
+
+  The theorems above already quantify over them (`x.raw`, `x.po` are fields of `Input`).  The
+  ones below say how: they are irrelevant to everything C20 speaks of. -/
+
+/-- Clone ignores the deprecated pair: whatever `Raw` and `PayloadOffset` the original carries, the
+    observation differs from the one with `Raw = nil`, `PayloadOffset = 0` in the clone's
+    `PayloadOffset` (copied) and nowhere else; in particular the clone's `Raw` is nil. -/
+theorem c20_clone_ignores_raw (x : Input) (raw : Option Bytes) (po : Nat) :
+    modelObs { x with raw := raw, po := po } =
+      { modelObs { x with raw := none, po := 0 } with clonePO := po, hPO := po } ∧
+    (modelObs { x with raw := raw, po := po }).cloneRaw = none := by
+  constructor <;> rfl
+
+/-- on the whole state of a packet variable: the clone's value, its serialisation and its size do
+    not depend on the original's `Raw` / `PayloadOffset`; `PayloadOffset` is copied, `Raw` dropped -/
+theorem c20_cloneD (p : Packet) (d : Deprecated) :
+    (pktCloneD { pkt := p, dep := d }).pkt = p ∧
+    (pktCloneD { pkt := p, dep := d }).dep = { raw := none, payloadOffset := d.payloadOffset } ∧
+    pktMarshalD (pktCloneD { pkt := p, dep := d }) = pktMarshal p ∧
+    pktMarshalSizeD (pktCloneD { pkt := p, dep := d }) = pktMarshalSize p ∧
+    pktMarshalD { pkt := p, dep := d } = pktMarshal p :=
+  ⟨rfl, rfl, rfl, rfl, rfl⟩
+
+/-- the predicate the run-time check evaluates holds for every `Raw` / `PayloadOffset` (spelled
+    out from `c20_clone`; the predicate does not read `cloneRaw`) -/
+theorem c20_clone_any_raw (x : Input) (raw : Option Bytes) (po : Nat) :
+    pred { x with raw := raw, po := po } (modelObs { x with raw := raw, po := po }) = true :=
+  c20_clone _
+
+/-- non-vacuity: `Raw` = the 44-byte datagram `ex` was decoded from, `PayloadOffset` = its header
+    size 36 — the padded payload is NOT `Raw[PayloadOffset:]` (that still holds the 3 padding octets) -/
+example : pktMarshalSize ex = 44 ∧ hdrMarshalSize ex.header = 36 := by decide
+example : (match pktMarshal ex with | .ok raw => raw.drop 36 != ex.payload | _ => false) = true := by decide +kernel
+example : (match pktMarshal ex with
+    | .ok raw => (modelObs { p := ex, po := 36, raw := some raw, nils := default, mutn := .payloadByte 0, onClone := true }).clone
+                   == Side.of ex
+    | _ => false) = true := by decide +kernel
 
 /-! ## Clone over an explicit heap (Rtp/Model/CloneMem.lean)
 
@@ -210,6 +249,22 @@ example : ∀ m ∈ [MutM.payloadByte 1, .csrcEntry 0, .extByte 0 0, .setExt 1 [
   decide
 /-- a shallow copy (the struct assignment alone) is NOT independent: the model distinguishes -/
 example : readPacket (exHeap.set 2 (.bytes [0x55])) exPkt ≠ readPacket exHeap exPkt := by decide
+
+/-- over the heap, too, Clone ignores the deprecated pair: whatever slice `Raw` is (nil, an array of
+    its own, or the very array the payload or an extension value lives in) and whatever
+    `PayloadOffset` holds, the heap after cloning and the clone are those of `pktCloneM` — so all
+    of `c20_mem_equal` / `c20_mem_disjoint` / `c20_mem_independent` / `c20_mem_mutations` apply
+    unchanged; the clone's `Raw` is nil (it reaches no array through it), `PayloadOffset` is copied -/
+theorem c20_mem_clone_ignores_raw (H : Heap) (p : PacketM) (raw : Sl) (po : Nat) :
+    (pktCloneMD H { pkt := p, raw := raw, payloadOffset := po }).1 = (pktCloneM H p).1 ∧
+    (pktCloneMD H { pkt := p, raw := raw, payloadOffset := po }).2 =
+      { pkt := (pktCloneM H p).2, raw := .nil, payloadOffset := po } :=
+  ⟨rfl, rfl⟩
+
+/-- non-vacuity: `Raw` aliasing the payload's array -/
+example : (pktCloneMD exHeap { pkt := exPkt, raw := .at 1, payloadOffset := 12 }).2.raw = .nil ∧
+    reachPacket (pktCloneMD exHeap { pkt := exPkt, raw := .at 1, payloadOffset := 12 }).1
+      (pktCloneMD exHeap { pkt := exPkt, raw := .at 1, payloadOffset := 12 }).2.pkt = [4, 6, 5, 7] := by decide
 
 end Memory
 
